@@ -267,9 +267,20 @@ def oracle(op, rc, before, after):
         if after["refs"].get("refs/heads/" + new) != before["refs"].get("refs/heads/" + old):
             probs.append("rename: branch head differs")
         if unrelated(old, new):
-            want = sorted((new + s[0][len(old):], s[1], s[2]) for s in cfg_of_branch(before["cfg"], old))
+            carried = [(new + s[0][len(old):], s[1], s[2]) for s in cfg_of_branch(before["cfg"], old)]
+            # entries that were already there under the NEW name (left by `git branch -D` of an earlier
+            # branch of that name, which removes branch.<n> but not branch.<n>.stgit) are not the
+            # rename's doing: the property speaks of what is carried over and of the old name
+            # (stg sets / unsets parentbranch and description itself and leaves other leftover keys alone:
+            # a leftover entry may survive or go, every carried entry must be there, nothing else may appear)
+            pre = {(s[0], s[1]): s for s in cfg_of_branch(before["cfg"], new)}
+            car = {(s[0], s[1]): s for s in carried}
             got = sorted(cfg_of_branch(after["cfg"], new))
-            if want != got:
+            gotm = {(s[0], s[1]): s for s in got}
+            want = sorted(car.values())
+            bad = [k for k in car if gotm.get(k) != car[k]] + \
+                  [k for k in gotm if k not in car and pre.get(k) != gotm[k]]
+            if bad:
                 probs.append("rename: config carried over is %r, expected %r" % (got, want))
         if after["head"] != (new if cur == old else cur):
             probs.append("rename: HEAD is %r" % after["head"])
